@@ -33,6 +33,30 @@ transcritical exchange of the poly1 symmetric phase with phi_-(T) at T0): a mini
 continues continuously on another closed form, so neither stopping with the flag nor
 tracing through is called a violation; rows are judged against the continued branch.
 
+History dimension: after the first call every traced FreeEnergy is traced again once or
+twice (same / finer dT, same / wider / narrower request or exactly the remembered end,
+paranoid kept or toggled) and *every* call is judged by the same table oracle.  What
+tracePhase does on an object that has been traced before (read off the code, and the
+reason the oracle is what it is): the request is clipped to the range the object
+advertised before the call (2 dT_prev inside the previous table); the new table must span
+exactly that effective range (coverage up to 4 ulp, the remembered end is a float sum);
+nothing new can be learnt about the ends, so
+  * an end whose raw request still contains the spinodal the previous call stopped at must
+    stay flagged                      (spinodal-end-flag-lost-on-retrace),
+  * an end whose raw request lies inside the remembered range is covered and must not be
+    flagged, whatever the flag said before
+                                      (end-flag-stale-after-retrace-over-covered-range),
+  * a widening that the clipping cuts off (first request ended inside, this one reaches
+    past the spinodal) and a request between the remembered end and a known spinodal are
+    recorded, not judged,
+  * with identical settings the abscissae shared with the previous table carry
+    bit-identical values                (retrace-with-same-settings-changes-rows).
+Step-commensurate ends: extra cases put a requested end -1/0/+1/+2/+3 ulp around a step of
+the tracer (positions from a scratch trace of T_start -+ 12 dT, achievement read off the
+steps of the real trace), so that the last RK45 step is a rounding remainder; an end ulps
+short of the request *and* flagged is reported as
+rounding-remainder-before-range-end-flagged-as-disappearance.
+
 Deviations from DESIGN C11, each forced by what the unchanged tree showed:
   * the T slack K*rTol*T is kept for folds but has a floor rTol >= 1e-6, is scaled by
     (T0/T_end)^3 (tolerances in tracePhase are relative to the *starting* temperature) and
@@ -56,7 +80,11 @@ RULE = ("tracePhase cases: family poly1|poly2 x phase low|high x unit factor {1e
         "requested end in {deep inside, within 0.05..5 dT of the spinodal, past the "
         "spinodal} x dT log-uniform in [1e-3, 0.3] of the interval x rTol in "
         "{1e-4,1e-6,1e-8} x paranoid on/off x first-step option x starting-guess "
-        "perturbation.  findCriticalTemperature cases: both phases traced inside their "
+        "perturbation; each such object is then traced again once or twice (dT x {1,1,.5,.25}, "
+        "each end same / wider by 0.3..20 dT / narrower to 35..95 % of the remembered range / "
+        "exactly the remembered end, paranoid kept or toggled), every call judged.  Extra "
+        "cases: both ends deep inside, one or both placed -1..+3 ulp around a tracer step.  "
+        "findCriticalTemperature cases: both phases traced inside their "
         "coexistence interval around T_c.  Non-trivial: a decided trace whose requested "
         "range reaches within 5 dT of, or beyond, a spinodal (resp. a decided T_c); "
         "distinct by (family, phase, unit, end modes, rTol, paranoid, parameter seed).")
@@ -73,27 +101,62 @@ ASSUMPTIONS = [
     "but the presence/absence of the flag is not judged there; the same holds for every "
     "request that reaches a soft end",
     "poly2 draws are restricted to sub-critical transverse instabilities (lh*ls < lhs^2/4)",
+    "a further tracePhase call on the same object is judged against the request clipped to "
+    "the range the object advertised before the call (tracePhase's 'maximum temperature "
+    "range'); that a re-trace cannot widen the range is taken as designed, not judged; a "
+    "further call is made only when the starting temperature lies strictly inside the "
+    "advertised range",
 ]
 CASE_TIMEOUT = 300
 CHUNK = 2
 K_TOL = 10.0          # DESIGN 2.3-3 safety factor on documented accuracy models
 N_INTERP = 200
 
+# history / step-commensurate floors: ~55 % of the smallest count over quick seeds 0..4 resp.
+# thorough seed 0 on the unchanged tree
 FLOORS = {
     "quick": {"distinct_nontrivial": 30,
               "mon": {"table_rows": 3000, "minimiser_calls": 1000, "interp_points": 4000,
                       "ode_steps": 3000,
-                      "traces_decided": 60, "tc_decided": 6},
+                      "traces_decided": 60, "tc_decided": 6,
+                      "retraces_decided": 55, "retrace_rows_compared": 1500, "ulpstep_ends": 6},
               "cls": {"end:past": 25, "end:near": 12, "judged:hi:past": 8,
                       "judged:hi:inside": 25, "paranoid": 30, "nonparanoid": 20,
-                      "unit:0.01": 15, "unit:1": 15, "unit:100": 15}},
+                      "unit:0.01": 15, "unit:1": 15, "unit:100": 15,
+                      # both directions of the flag on a further call of the same object
+                      "retrace:hi:past:flag-must-persist": 3,
+                      "retrace:hi:covered:was-flagged": 3,
+                      "retrace:hi:covered:was-unflagged": 8, "retrace:lo:covered:was-unflagged": 10,
+                      "retrace:dT:finer": 30, "retrace:dT:same": 20,
+                      "retrace:paranoid:toggle": 18, "retrace:paranoid:same": 25,
+                      "retrace:hi:same": 20, "retrace:lo:same": 20, "retrace:hi:wider": 10,
+                      "retrace:lo:wider": 10, "retrace:hi:narrower": 8, "retrace:lo:narrower": 8,
+                      "retrace:hi:edge": 4, "retrace:lo:edge": 5,
+                      # requested end a few ulp beyond a tracer step
+                      "ulpstep:lo:beyond": 3, "ulpstep:hi:beyond": 1,
+                      "ulpstep:lo:beyond:remainder-below-1e-16-T0": 1}},
     "thorough": {"distinct_nontrivial": 800,
                  "mon": {"table_rows": 100000, "minimiser_calls": 30000, "ode_steps": 100000,
-                         "interp_points": 150000, "traces_decided": 1600, "tc_decided": 150},
+                         "interp_points": 150000, "traces_decided": 1600, "tc_decided": 150,
+                         "retraces_decided": 1400, "retrace_rows_compared": 60000,
+                         "ulpstep_ends": 120},
                  "cls": {"end:past": 600, "end:near": 300, "judged:hi:past": 200,
                          "judged:hi:inside": 600, "judged:lo:past": 10, "paranoid": 800,
                          "nonparanoid": 500, "unit:0.01": 400, "unit:1": 400,
-                         "unit:100": 400}},
+                         "unit:100": 400,
+                         "retrace:hi:past:flag-must-persist": 150,
+                         "retrace:lo:past:flag-must-persist": 20,
+                         "retrace:hi:covered:was-flagged": 60, "retrace:lo:covered:was-flagged": 20,
+                         "retrace:hi:covered:was-unflagged": 300,
+                         "retrace:lo:covered:was-unflagged": 350,
+                         "retrace:dT:finer": 700, "retrace:dT:same": 550,
+                         "retrace:paranoid:toggle": 500, "retrace:paranoid:same": 700,
+                         "retrace:hi:same": 500, "retrace:lo:same": 500, "retrace:hi:wider": 300,
+                         "retrace:lo:wider": 300, "retrace:hi:narrower": 250,
+                         "retrace:lo:narrower": 300, "retrace:hi:edge": 100, "retrace:lo:edge": 100,
+                         "retrace:hi:edge:was-flagged": 20,
+                         "ulpstep:lo:beyond": 60, "ulpstep:hi:beyond": 30,
+                         "ulpstep:lo:beyond:remainder-below-1e-16-T0": 8}},
 }
 
 EPS = float(np.finfo(float).eps)
@@ -174,51 +237,63 @@ def _end_mode(rng, lower=False):
     return {"mode": "deep", "x": float(rng.uniform(0.1, 0.9))}
 
 
-def _retrace_spec(rng):
-    """One further tracePhase call on the same FreeEnergy object (history dimension)."""
-    def side():
+def _retrace_spec(rng, first_modes):
+    """One further tracePhase call on the same FreeEnergy object (history dimension).
+    first_modes: the end modes of the first call; an end first requested past the spinodal
+    is more often asked for again (same / wider), which is where a flag can get lost."""
+    def side(first_mode):
+        past = first_mode == "past"
         r = rng.random()
         if r < 0.4:
             return {"mode": "same"}
-        if r < 0.65:
+        if r < (0.62 if past else 0.65):
             return {"mode": "wider", "x": float(10 ** rng.uniform(-0.5, 1.3))}    # x*dT further out
-        if r < 0.72:
+        if r < (0.78 if past else 0.72):
             return {"mode": "edge"}            # exactly the remembered (advertised) end
         return {"mode": "narrower", "f": float(rng.uniform(0.35, 0.95))}          # of the remembered range
     return {"dT_mul": float(rng.choice([1.0, 1.0, 0.5, 0.25])),
             "paranoid": "same" if rng.random() < 0.6 else "toggle",
-            "lo": side(), "hi": side()}
+            "lo": side(first_modes[0]), "hi": side(first_modes[1])}
+
+
+def _draw_trace_case(rng, i):
+    fam = "poly1" if rng.random() < 0.5 else "poly2"
+    spec = _rand_poly1(rng) if fam == "poly1" else _rand_poly2(rng, rng.random() < 0.5)
+    spec["s"] = float(rng.choice([1e-2, 1.0, 1e2]))
+    spec.update(_rand_affine(rng, 1 if fam == "poly1" else 2))
+    fs = rng.random()
+    first = None if fs < 0.6 else float(rng.choice([1e-3, 1e-2, 0.1, 0.5]))
+    gp = rng.random()
+    return {
+        "kind": "trace", "i": i, "spec": spec,
+        "phase": "low" if rng.random() < 0.55 else "high",
+        "u0": float(rng.uniform(0.03, 0.97)),
+        "dT_frac": float(10 ** rng.uniform(-3, math.log10(0.3))),
+        "rTol": float(rng.choice([1e-4, 1e-6, 1e-8])),
+        "paranoid": bool(rng.random() < 0.6),
+        "first": first,
+        "lo": _end_mode(rng, lower=True), "hi": _end_mode(rng),
+        "guess_pert": 0.0 if gp < 0.4 else float(rng.choice([1e-4, 1e-3, 1e-2])),
+        "tscale": float(rng.choice([0.3, 1.0, 3.0])),
+        "fscale": float(rng.choice([0.1, 0.3, 1.0])),
+        "s": int(rng.integers(1 << 30)),
+    }
 
 
 def generate(tier, seed):
     rng = np.random.default_rng(11000 + int(seed))
-    # separate stream: the history dimension does not disturb the first-call population
+    # separate streams: the history dimension and the step-commensurate ends do not disturb
+    # the first-call population
     rng_h = np.random.default_rng(11500 + int(seed))
-    n_tr, n_tc = (110, 14) if tier == "quick" else (2600, 300)
+    rng_u = np.random.default_rng(11700 + int(seed))
+    n_tr, n_tc, n_ulp = (110, 14, 20) if tier == "quick" else (2600, 300, 300)
     cases = []
     for i in range(n_tr):
-        fam = "poly1" if rng.random() < 0.5 else "poly2"
-        spec = _rand_poly1(rng) if fam == "poly1" else _rand_poly2(rng, rng.random() < 0.5)
-        spec["s"] = float(rng.choice([1e-2, 1.0, 1e2]))
-        spec.update(_rand_affine(rng, 1 if fam == "poly1" else 2))
-        fs = rng.random()
-        first = None if fs < 0.6 else float(rng.choice([1e-3, 1e-2, 0.1, 0.5]))
-        gp = rng.random()
-        cases.append({
-            "kind": "trace", "i": i, "spec": spec,
-            "phase": "low" if rng.random() < 0.55 else "high",
-            "u0": float(rng.uniform(0.03, 0.97)),
-            "dT_frac": float(10 ** rng.uniform(-3, math.log10(0.3))),
-            "rTol": float(rng.choice([1e-4, 1e-6, 1e-8])),
-            "paranoid": bool(rng.random() < 0.6),
-            "first": first,
-            "lo": _end_mode(rng, lower=True), "hi": _end_mode(rng),
-            "guess_pert": 0.0 if gp < 0.4 else float(rng.choice([1e-4, 1e-3, 1e-2])),
-            "tscale": float(rng.choice([0.3, 1.0, 3.0])),
-            "fscale": float(rng.choice([0.1, 0.3, 1.0])),
-            "s": int(rng.integers(1 << 30)),
-            "retrace": [_retrace_spec(rng_h) for _ in range(1 if rng_h.random() < 0.7 else 2)],
-        })
+        cases.append(_draw_trace_case(rng, i))
+        # history: one or two further calls on the same object
+        n_h = 1 if rng_h.random() < 0.7 else 2
+        cases[-1]["retrace"] = [_retrace_spec(rng_h, (cases[-1]["lo"]["mode"], cases[-1]["hi"]["mode"]))
+                                for _ in range(n_h)]
     for i in range(n_tc):
         fam = "poly1" if rng.random() < 0.5 else "poly2"
         spec = _rand_poly1(rng) if fam == "poly1" else _rand_poly2(rng)
@@ -239,6 +314,23 @@ def generate(tier, seed):
             "fscale": float(rng.choice([0.1, 0.3, 1.0])),
             "s": int(rng.integers(1 << 30)),
         })
+    # requested ends a few ulp around a step of the tracer (T_start -+ ramp-up -+ k dT): the
+    # last RK45 step onto the end is then a rounding remainder.  Both ends well inside the
+    # existence interval, so neither may be flagged and the table must reach them.
+    for i in range(n_ulp):
+        c = _draw_trace_case(rng_u, n_tr + n_tc + i)
+        c["u0"] = float(rng_u.uniform(0.35, 0.9))
+        c["dT_frac"] = float(10 ** rng_u.uniform(-2.5, -1.3))
+        c["guess_pert"] = 0.0
+        sides = ("lo", "hi") if rng_u.random() < 0.4 else (("lo",) if rng_u.random() < 0.75 else ("hi",))
+        for sd in sides:
+            c[sd] = {"mode": "ulpstep", "ulps": int(rng_u.choice([-1, 0, 1, 1, 1, 2, 3])),
+                     "x": float(rng_u.random())}
+        for sd in ("lo", "hi"):
+            if c[sd]["mode"] not in ("ulpstep", "deep"):
+                c[sd] = {"mode": "deep", "x": float(rng_u.uniform(0.3, 0.8))}
+        c["retrace"] = []
+        cases.append(c)
     return cases
 
 
@@ -810,6 +902,14 @@ def judge_table(pot, phase, fe, req, rec, obs, viol, mon):
                              f"{reqT!r} in one step from T0={req['T0']!r} (phase exists down to "
                              f"{tend:.6g}); that row is not in the table, which starts at T0 "
                              f"and is flagged as a true end: {flag}", "data": data0})
+            elif tabT != reqT and flag and abs(tabT - reqT) <= 4 * float(np.spacing(abs(reqT))):
+                viol.append({"mech": "rounding-remainder-before-range-end-flagged-as-disappearance",
+                             "msg": f"{side} end: requested {reqT!r} (inside the existence "
+                             f"interval, spinodal {tend:.9g}); the table ends at {tabT!r}, "
+                             f"{abs(tabT - reqT) / float(np.spacing(abs(reqT))):.0f} ulp short of it "
+                             f"(ulp {float(np.spacing(abs(reqT))):.2e}, 1e-16*T0={1e-16 * req['T0']:.2e}), "
+                             f"and the end is flagged as a genuine disappearance of the phase",
+                             "data": data0})
             elif tabT != reqT:
                 viol.append({"mech": "table-stops-short-of-requested-end",
                              "msg": f"{side} end: requested {reqT!r} is inside the existence "
@@ -873,6 +973,8 @@ def judge_table(pot, phase, fe, req, rec, obs, viol, mon):
 def _materialise_end(side, em, spin_T, kind, cap, t_start, dT):
     """Requested end of the range on one side.  Returns (value, intended mode)."""
     sgn = -1.0 if side == "lo" else 1.0
+    if em["mode"] == "ulpstep":
+        em = {"mode": "deep", "x": 0.5 + 0.4 * em["x"]}     # nominal end; see _ulp_place
     if em["mode"] == "onestep":
         # TMin one RK45 step (first_step = T0 - TMin <= dT) below the start
         v = t_start - em["x"] * dT
@@ -892,6 +994,62 @@ def _materialise_end(side, em, spin_T, kind, cap, t_start, dT):
     if sgn * (v - t_start) < 0.5 * dT:            # start too close to the spinodal
         return spin_T + sgn * em["x"] * dT, "past"
     return v, em["mode"]
+
+
+N_SCRATCH = 12
+
+
+def _ulp_place(pot, case, t_start, dT, rTol, first, guess, nominal):
+    """Put the requested end(s) in mode 'ulpstep' k ulp beyond (k<0: before) a step of the
+    tracer.  Step positions: a scratch FreeEnergy traced with the same settings over
+    t_start -+ 12 dT under the RK45 recorder; once three consecutive steps equal dT the
+    later ones are t + k dT accumulated in the solver's floating-point order.  The step is
+    chosen no further out than the nominal (deep) end; among the admissible ones the
+    outermost whose remainder is below 1e-16*T0 is preferred for a lower end."""
+    import WallGo
+    from WallGo import Fields
+    out, info = list(nominal), {}
+    sides = [(0, "lo", 1, -1.0), (1, "hi", 0, 1.0)]
+    want = [sd for _, sd, _, _ in sides if case[sd]["mode"] == "ulpstep"]
+    scratch = WallGo.FreeEnergy(pot, t_start, Fields(guess))
+    rec = MinimiserRecorder(pot)
+    rec.install()
+    try:
+        try:
+            scratch.tracePhase(t_start - N_SCRATCH * dT, t_start + N_SCRATCH * dT, dT, rTol=rTol,
+                               paranoid=case["paranoid"], phaseTracerFirstStep=first)
+        finally:
+            rec.remove()
+    except Exception as exc:        # noqa: BLE001 (CaseTimeout derives from BaseException)
+        return out, {sd: {"status": "scratch-raised", "error": repr(exc)[:80]} for sd in want}
+    for j, sd, integ, sgn in sides:
+        if sd not in want:
+            continue
+        em = case[sd]
+        st = rec.steps_of(integ)[:-1]
+        if len(st) < 5 or not np.all(np.abs(np.abs(np.diff(st[-4:])) / dT - 1.0) < 1e-9):
+            info[sd] = {"status": "ramp-up-not-finished"}
+            continue
+        t, hist = st[-1], []
+        while sgn * (t + sgn * dT - nominal[j]) <= 0 and len(hist) < 20000:
+            t = t + sgn * dT
+            hist.append(t)
+        if len(hist) < 3:
+            info[sd] = {"status": "range-too-short"}
+            continue
+        pick = hist[-1]
+        if sd == "lo" and em["ulps"] > 0:
+            small = [h for h in hist[2:] if float(np.spacing(h)) < 1e-16 * t_start]
+            if small:
+                pick = small[-1]
+        v = pick
+        for _ in range(abs(em["ulps"])):
+            v = float(np.nextafter(v, sgn * np.inf if em["ulps"] > 0 else -sgn * np.inf))
+        out[j] = float(v)
+        info[sd] = {"status": "placed", "ulps": em["ulps"], "step": float(pick), "end": out[j],
+                    "nominal": float(nominal[j]),
+                    "remainder_below_1e-16_T0": bool(abs(out[j] - pick) < 1e-16 * t_start)}
+    return (out[0], out[1]), info
 
 
 def _case_trace(case):
@@ -924,11 +1082,18 @@ def _case_trace(case):
     dirn = rng.normal(size=pot.fieldCount)
     dirn /= np.linalg.norm(dirn)
     guess = pot.to_code(b0 + case["guess_pert"] * fref * dirn)
+    placed = {}
+    if "ulpstep" in (case["lo"]["mode"], case["hi"]["mode"]):
+        (TMin, TMax), placed = _ulp_place(pot, case, t_start, dT, rTol, first, guess, (TMin, TMax))
+        mlo = "ulpstep" if placed.get("lo", {}).get("status") == "placed" else mlo
+        mhi = "ulpstep" if placed.get("hi", {}).get("status") == "placed" else mhi
     key = (f"tr:{case['spec']['family']}:{phase}:{case['spec']['s']:g}:{mlo}/{mhi}:"
            f"{rTol:g}:{int(case['paranoid'])}:{case['s'] % 9973}")
     mon = {"traces_run": 1, "traces_decided": 0, "minimiser_calls": 0}
     obs = {"model": {k: v for k, v in case["spec"].items()}, "t_start": t_start,
            "first_step": first, "guess_pert": case["guess_pert"], "W": W}
+    if placed:
+        obs["ulp_placed"] = placed
     viol = []
     fe = WallGo.FreeEnergy(pot, t_start, Fields(guess))
     rec = MinimiserRecorder(pot)
@@ -1001,6 +1166,24 @@ def _case_trace(case):
     cls += [f"judged:{side}:{obs.get('end_' + side)}" for side in ("lo", "hi")]
     if "minimiser_hop" in obs:
         cls.append("minimiser-hop-seen")
+    for sd, pl in placed.items():
+        if pl.get("status") != "placed":
+            cls.append(f"ulpstep:{sd}:{pl.get('status')}")
+            continue
+        # achieved?  read off the steps of the real trace: the predicted step was taken, and
+        # for an end beyond it the integration went on to the end from there
+        stp = rec.steps_of(0 if sd == "hi" else 1)
+        pl["achieved"] = bool(pl["step"] in stp[-2:]) if pl["ulps"] > 0 else \
+            bool(len(stp) > 1 and abs(abs(stp[-1] - stp[-2]) / dT - 1.0) < 1e-9)
+        if not pl["achieved"]:
+            cls.append(f"ulpstep:{sd}:not-achieved")
+            continue
+        cls.append(f"ulpstep:{sd}:{'beyond' if pl['ulps'] > 0 else ('on' if pl['ulps'] == 0 else 'before')}")
+        mon["ulpstep_ends"] = mon.get("ulpstep_ends", 0) + 1
+        if pl["ulps"] > 0 and pl["remainder_below_1e-16_T0"]:
+            # the situation in which a step-size-collapse test in units of T0 meets a
+            # legitimate last step of a few ulp
+            cls.append(f"ulpstep:{sd}:beyond:remainder-below-1e-16-T0")
     # ---- history: further tracePhase calls on the same object, each judged like the first
     if not viol:
         first_req = {**req, "first": first}
@@ -1069,6 +1252,16 @@ def _retrace(pot, phase, fe, prev_req, h, k, obs, viol, mon, cls):
     except BaseException as exc:
         if type(exc).__name__ == "CaseTimeout" or not isinstance(exc, Exception):
             raise
+        from wgverif.oracles import c11_branches as B
+        soft_in = [kind for (tend, kind) in B.end_types(pot, phase).values()
+                   if B.soft(kind) and eff[0] - 5 * dT <= tend <= eff[1] + 5 * dT]
+        if isinstance(exc, AssertionError) and "Temperature range negative" in str(exc) and soft_in:
+            # the previous call had traced through a soft end (vev -> 0 / exchange of
+            # stability), this one stopped at it (both admissible, see module docstring) and
+            # what is left is shorter than 4 dT
+            o["refused"] = str(exc)[:80]
+            cls.append("retrace:refused-after-stopping-at-soft-end(not judged)")
+            return None
         viol.append({"mech": "retrace-raises",
                      "msg": f"call #{k + 2} of tracePhase on the same object raised {exc!r}: asked "
                      f"[{raw[0]!r},{raw[1]!r}], advertised before [{adv[0]!r},{adv[1]!r}] (flags "
@@ -1084,6 +1277,8 @@ def _retrace(pot, phase, fe, prev_req, h, k, obs, viol, mon, cls):
     cls += [f"retrace:{side}:{h[side]['mode']}" for side in ("lo", "hi")]
     cls += [f"retrace:{side}:{o['retrace_' + side]}" for side in ("lo", "hi")
             if ("retrace_" + side) in o]
+    cls += [f"retrace:{side}:edge:was-flagged" for i, side in enumerate(("lo", "hi"))
+            if h[side]["mode"] == "edge" and flags[i] and str(o.get("retrace_" + side, "")).startswith("covered")]
     cls.append("retrace:dT:" + ("same" if dT == prev_req["dT"] else "finer"))
     cls.append("retrace:paranoid:" + h["paranoid"])
     # ---- same settings: the integration starts from the same point with the same step
